@@ -44,7 +44,8 @@ def THEOREM_HINT(name):
         "EpModel.Props.C10.build_layout",
         "EpModel.Props.C10.build_checksums",
         "EpModel.Props.C10.build_rejects",
-        "EpModel.Props.C10.build_parses_partial",
+        "EpModel.Props.C10.build_parses",
+        "EpModel.Props.C10.strict_slicing_accepts_ethernet",
     ]
 
 
